@@ -190,7 +190,9 @@ func (w *wireCtx) do(req *http.Request) (*http.Response, error) {
 		status = 200
 	}
 	w.rec.Emit(Event{"ev": "ServerDone", "case": w.caseID, "status": status, "writes": cw.writes, "hdr": map[string][]string(hdr), "body": b64(cw.body.Bytes())})
-	return &http.Response{StatusCode: status, Status: fmt.Sprint(status), Header: hdr, Body: newPlannedBody(cw.body.Bytes(), "response", w.reads), Request: req,
+	rb := newPlannedBody(cw.body.Bytes(), "response", w.reads)
+	rb.ctx = req.Context()
+	return &http.Response{StatusCode: status, Status: fmt.Sprint(status), Header: hdr, Body: rb, Request: req,
 		ContentLength: int64(cw.body.Len())}, nil
 }
 
